@@ -10,6 +10,7 @@ import logging
 
 import kopf
 import vkopf
+from vkopf.props import c04 as _c04
 from vkopf.driver_api import Ob, split
 from vkopf.symloop import Deadlock, Diverged, Livelock
 from vkopf.world import World, base_body, make_resource, PLURAL, FIN
@@ -208,6 +209,17 @@ def h_match(lc: int, ac: int, use_field: bool, vc: int, oc: int, nc: int, when: 
     return vkopf.verdict(got == want)
 
 
+def h_field_pipeline(has_lbl: bool, has_status: bool, spec_v: int, what: int, fi: int) -> bool:
+    """
+    pre: 0 <= what <= 6 and 0 <= fi <= 5
+    post: _ == True
+    """
+    # the matching functions above take hand-made old/new views; this one goes through the whole pipeline (diff-base storage,
+    # extra fields of the registry, cause detection, field narrowing): a handler on a field -- also a system-metadata or status
+    # field -- runs exactly when that field's value differs from the last-handled one (shared with C04 h_field_view)
+    return _c04.field_view_impl(has_lbl, has_status, spec_v, what, fi)
+
+
 def obligations():
     obs = []
     # (kind, lc, ac, use_field, vc, oc, nc, when, dup): the criteria of the declaration are pinned per cell; the object's
@@ -244,4 +256,7 @@ def obligations():
             for dup in (0, 1, 2):
                 obs.append(cell(kind, 1, 0, True, 1, 0, 0, when, dup, tiers=('thorough',)))
     obs.append(Ob('h_match', {'kind': 0, 'exclude_known': False, 'only_f9': True}, expect='counterexample', finding='F9', timeout=300))
+    obs += split(Ob('h_field_pipeline', {'progress': 'annotations', 'diffbase': 'annotations', 'v1': True}, timeout=900, twins=['field_view']),
+                 fi=[4, 5])
+    obs += split(Ob('h_field_pipeline', {'progress': 'status', 'diffbase': 'status', 'v1': True}, timeout=900, tiers=('thorough',)), fi=[0, 1, 4, 5])
     return obs
